@@ -4316,6 +4316,7 @@ def _efc_contact_update(cone_type: types.ConeType, flg_adhesion: bool):
 
     ref = solref_in[conid]
     pos_aref = pos
+    margin = includemargin
 
     if wp.static(IS_ELLIPTIC):
       if dimid > 0:
@@ -4334,7 +4335,9 @@ def _efc_contact_update(cone_type: types.ConeType, flg_adhesion: bool):
           fri = fri0 * fri0 / (frii * frii)
           invweight *= fri
 
+        # friction dimensions have zero position and margin
         pos_aref = 0.0
+        margin = 0.0
     else:
       if condim > 1:
         friction = friction_in[conid]
@@ -4359,7 +4362,7 @@ def _efc_contact_update(cone_type: types.ConeType, flg_adhesion: bool):
       invweight,
       ref,
       solimp_in[conid],
-      includemargin,
+      margin,
       Jqvel,
       0.0,
       efc_type,
@@ -4747,6 +4750,7 @@ def _efc_contact_update_flex(cone_type: types.ConeType, flg_adhesion: bool = Fal
 
     ref = solref_in[conid]
     pos_aref = pos
+    margin = includemargin
 
     if wp.static(IS_ELLIPTIC):
       if dimid > 0:
@@ -4765,7 +4769,9 @@ def _efc_contact_update_flex(cone_type: types.ConeType, flg_adhesion: bool = Fal
           fri = fri0 * fri0 / (frii * frii)
           invweight *= fri
 
+        # friction dimensions have zero position and margin
         pos_aref = 0.0
+        margin = 0.0
     else:
       if condim > 1:
         friction = friction_in[conid]
@@ -4790,7 +4796,7 @@ def _efc_contact_update_flex(cone_type: types.ConeType, flg_adhesion: bool = Fal
       invweight,
       ref,
       solimp_in[conid],
-      includemargin,
+      margin,
       Jqvel,
       0.0,
       efc_type,
